@@ -338,3 +338,66 @@ package shwap
 //@   ensures err == nil && s.ProofType == rsmt2d.Row ==> deref(s.Proof).start == colIdx && deref(s.Proof).end == colIdx + 1
 //@   ensures err == nil && s.ProofType == rsmt2d.Col ==> deref(s.Proof).start == rowIdx && deref(s.Proof).end == rowIdx + 1
 //@   ensures err == nil ==> nmtIncl1(deref(s.Proof), ((colIdx >= len(roots.RowRoots)/2 || rowIdx >= len(roots.RowRoots)/2) ? libshare.ParitySharesNamespace.data : s.Share.data[0:29]), s.Share.data, (s.ProofType == rsmt2d.Row ? roots.RowRoots[uint(rowIdx)] : roots.ColumnRoots[uint(colIdx)]))
+
+// ---------------------------------------------------------------------------------------------
+// C01: verified share ranges.
+
+// Length of row i of a range response that covers rows [from.Row, to.Row] of an ODS of width ods:
+// the first row starts at from.Col, the last row ends at to.Col, rows in between are complete.
+//@ pure func rowLen(i int, n int, fromCol int, toCol int, ods int) int = (i == 0 ? (i == n-1 ? toCol - fromCol + 1 : ods - fromCol) : (i == n-1 ? toCol + 1 : ods))
+
+// A-NMT / A-RS (assumed, uninterpreted): root recomputed from a partial-row proof; leaf hashes; the
+// erasure-coded extension of a row half; the root of a full extended row.
+//@ pure func nmtRootOf(proof nmt.Proof, nid []byte, hashes [][]byte, complete bool) []byte
+//@ pure func leafHashesOf(nid []byte, leaves [][]byte) [][]byte
+//@ pure func sharesBytes(s []libshare.Share) [][]byte
+//@ pure func rowRootOf(leaves [][]byte, rowIndex uint) []byte
+
+//@ extern github.com/celestiaorg/go-square/v4/share.ToBytes
+//@   ensures result == sharesBytes(shares) && len(result) == len(shares)
+//@ extern github.com/celestiaorg/nmt.ComputePrefixedLeafHashes
+//@   ensures err == nil ==> result == leafHashesOf(nid, leaves) && len(result) == len(leaves)
+//@ extern (github.com/celestiaorg/nmt.Proof).ComputeRootWithBasicValidation
+//@   ensures err == nil ==> result == nmtRootOf(proof, nID, leafHashes, isNamespace)
+//@   ensures err == nil ==> proof.end - proof.start == len(leafHashes) && 0 <= proof.start && result != nil
+//@ extern (github.com/celestiaorg/nmt.Proof).IsOfAbsence
+//@   ensures result <==> len(proof.leafHash) > 0
+
+//@ func buildTreeRootFromLeaves
+//@   property C01
+//@   trusted
+//@   ensures err == nil ==> result == rowRootOf(extendedShares, rowIndex)
+
+//@ func computeRoot
+//@   property C01
+//@   ensures proof == nil ==> result == nil && err == nil
+//@   ensures proof != nil && err == nil ==> result == nmtRootOf(deref(proof), ns.data, leafHashesOf(ns.data, sharesBytes(shares)), nsCompleteness)
+//@   ensures proof != nil && err == nil ==> deref(proof).end - deref(proof).start == len(shares) && 0 <= deref(proof).start && result != nil
+
+//@ func ParseNamespace
+//@   property C01
+//@   ensures err == nil ==> len(rawShares) > 0 && 0 <= startShare && startShare < endShare
+
+// Property C01 for ranges: an accepted response has exactly the rows of the request, every row has
+// exactly the columns of the requested range that fall into it, partial-row proofs are bound to the
+// requested first/last column, and every row is tied to the committed root of that row.
+//@ func (*RangeNamespaceData).verifyShares
+//@   property C01
+//@   requires odsSize > 0
+//@   ensures err == nil ==> len(shares) == to.Row - from.Row + 1 && len(expectedRoots) == len(shares) && len(shares) > 0
+//@   ensures err == nil ==> forall i int :: 0 <= i && i < len(shares) ==> len(shares[i]) == rowLen(i, len(shares), from.Col, to.Col, odsSize)
+//@   ensures err == nil ==> 0 <= from.Col && from.Col < odsSize && 0 <= to.Col && to.Col < odsSize
+//@   ensures err == nil && rngdata.FirstIncompleteRowProof != nil ==> deref(rngdata.FirstIncompleteRowProof).start == from.Col && deref(rngdata.FirstIncompleteRowProof).end == from.Col + len(shares[0])
+//@   ensures err == nil && rngdata.LastIncompleteRowProof != nil ==> deref(rngdata.LastIncompleteRowProof).end == to.Col + 1 && deref(rngdata.LastIncompleteRowProof).start == to.Col + 1 - len(shares[len(shares)-1])
+//@   checks err == nil ==> forall i int :: 0 <= i && i < len(shares) ==> bytesEq(expectedRoots[i], computedRoots[i])
+//@   checks err == nil && rngdata.FirstIncompleteRowProof != nil ==> computedRoots[0] == nmtRootOf(deref(rngdata.FirstIncompleteRowProof), ns.data, leafHashesOf(ns.data, sharesBytes(shares[0])), nsCompleteness)
+//@   checks err == nil && rngdata.FirstIncompleteRowProof == nil ==> computedRoots[0] == rowRootOf(sharesBytes(extendedOf(shares[0])), uint(uint(from.Row) + 0))
+//@   checks err == nil && len(shares) > 1 && rngdata.LastIncompleteRowProof != nil ==> computedRoots[len(shares)-1] == nmtRootOf(deref(rngdata.LastIncompleteRowProof), ns.data, leafHashesOf(ns.data, sharesBytes(shares[len(shares)-1])), nsCompleteness)
+//@   checks err == nil ==> forall i int :: 0 < i && i < len(shares) - 1 ==> computedRoots[i] == rowRootOf(sharesBytes(extendedOf(shares[i])), uint(uint(from.Row) + uint(i)))
+//@   loop 1: invariant -1 <= rangeindex && rangeindex < len(shares)
+//@   loop 1: invariant forall j int :: 0 <= j && j <= rangeindex ==> len(shares[j]) == rowLen(j, len(shares), from.Col, to.Col, odsSize)
+//@   loop 2: invariant -1 <= rangeindex#2 && rangeindex#2 < len(computedRoots) && len(computedRoots) == len(shares)
+//@   loop 2: invariant forall j int :: 0 <= j && j <= rangeindex#2 ==> computedRoots[j] == ((j == 0 && rngdata.FirstIncompleteRowProof != nil) ? firstIncompleteRoot : ((j == len(shares)-1 && j > 0 && rngdata.LastIncompleteRowProof != nil) ? lastIncompleteRoot : rowRootOf(sharesBytes(extendedOf(shares[j])), uint(uint(from.Row) + uint(j)))))
+//@   loop 2: invariant forall j int :: rangeindex#2 < j && j < len(shares) ==> computedRoots[j] == (j == 0 ? firstIncompleteRoot : (j == len(shares)-1 ? lastIncompleteRoot : nil))
+//@   loop 3: invariant -1 <= rangeindex#3 && rangeindex#3 < len(expectedRoots)
+//@   loop 3: invariant forall j int :: 0 <= j && j <= rangeindex#3 ==> bytesEq(expectedRoots[j], computedRoots[j])
